@@ -146,7 +146,7 @@ def extract_quic_packet(in_packet: Packet, isserver, guessed_dcid: bytes = None,
                                                                     first_packet_byte=header_parts[0],
                                                                     hp_key=hp_key,
                                                                     datagram_data=datagram_data,
-                                                                    pn_offset=pn_offset, ciphersuite=ciphersuite)
+                                                                    pn_offset=pn_offset, ciphersuite=None)  # Initial: always AES (RFC 9001 5.2)
 
                         fmt_string += str(decrypted_header[-1]) + "s"
                         fmt_string += str(int.from_bytes(packet_len, "big") - decrypted_header[-1]) + "s"
